@@ -15,10 +15,10 @@ from vlib import core, crash
 PID = 'C06'
 LEVEL = 'fault_enumeration'
 BUDGET_S = {'quick': 45, 'thorough': 700}
-FLOORS = {'quick': {'crash_points': 1500, 'torn_writes': 100, 'addresses_judged': 8000, 'recovery_stores': 1500,
+FLOORS = {'quick': {'crash_points': 1500, 'torn_writes': 100, 'addresses_judged': 8000, 'recovery_stores': 1500, 'post_crash_other_stores': 1200,
                     'scenarios': 100},
           'thorough': {'crash_points': 30000, 'torn_writes': 2000, 'addresses_judged': 150000,
-                       'recovery_stores': 30000, 'scenarios': 2000}}
+                       'recovery_stores': 30000, 'post_crash_other_stores': 25000, 'scenarios': 2000}}
 RULE = ("case = one store scenario (file cache plain / symlink / hardlink single-colour, compact v1/v2 store_tile, "
         "store_tiles within and across bundles, overwrite, remove, legend cache, seed progress file; prior contents "
         "empty / populated / left by an earlier crash; payload 200 B - 300 kB). For each scenario an unfaulted run in a "
@@ -220,6 +220,31 @@ class Scenario(object):
         else:
             for a, d in self.batch:
                 c.store_tile(mk_tile(a, d))
+
+    def other_store(self):
+        """store one more tile next to the batch (same level, same bundle for compact) with a fresh cache object"""
+        a0 = self.batch[0][0]
+        cand = (a0[0] ^ 1, a0[1], a0[2]) if a0[2] > 0 else (0, 0, 1)
+        n = 0
+        while cand in self.universe:
+            n += 1
+            cand = (a0[0] ^ 1, a0[1] + n, a0[2]) if a0[2] > 0 else (n % 2, n // 2 % 2, 1)
+        data = png(seed=991, size=(48, 48)) if self.backend in ('file_symlink', 'file_hardlink') else blob(991, 5000)
+        self.cache().store_tile(mk_tile(cand, data))
+        return cand, data
+
+    def read_one(self, a):
+        c = self.cache()
+        t = mk_tile(a, None)
+        try:
+            c.load_tile(t)
+            if t.source is None:
+                return None
+            buf = t.source.as_buffer()
+            buf.seek(0)
+            return buf.read()
+        except Exception as ex:
+            return ('exc', repr(ex))
 
     def read_all(self):
         """fresh object; returns {addr: bytes | None | ('exc', repr)}"""
@@ -476,6 +501,27 @@ def _run_case(run, case, d, snap):
                 break
         if bad:
             continue
+        # life goes on: an ordinary store of ANOTHER tile (same bundle / directory) after the restart must not disturb
+        # what the crash left visible
+        if hasattr(sc, 'other_store'):
+            try:
+                extra_addr, extra_data = sc.other_store()
+                rec0 = sc.read_all()
+                run.hit('post_crash_other_stores')
+                for a in sc.universe:
+                    if rec0[a] != after[a]:
+                        report(run, case, sc, opkind, k, tear, a, 'disturbed_by_later_store', rec0[a], pre, new, log)
+                        bad = True
+                        break
+                got_extra = sc.read_one(extra_addr)
+                if not bad and got_extra != extra_data:
+                    report(run, case, sc, opkind, k, tear, None, 'later_store_lost', got_extra, pre, new, log)
+                    bad = True
+            except Exception as ex:
+                report(run, case, sc, opkind, k, tear, None, 'not_recoverable', ('exc', repr(ex)), pre, new, log)
+                bad = True
+            if bad:
+                continue
         # recoverability: an ordinary store after the crash succeeds and is readable, others unchanged
         try:
             sc.op()
